@@ -1,6 +1,6 @@
 From Coq Require Import Sorting.Sorted.
 From Stam Require Import Base.Tac Model.Offset Model.Store Model.StoreObs Spec.StoreSpec
-     Proofs.StoreScan Proofs.StoreInv Proofs.StoreDataDef Proofs.StoreRemove Proofs.StoreData Props.C01.
+     Proofs.StoreScan Proofs.StoreInv Proofs.StoreDataDef Proofs.StoreRemove Proofs.StoreData Proofs.StoreStable Props.C01.
 Check (C01_index_invariant : forall ops, Inv (run ops)).
 Check (C01_textselection_annotations : forall ops r t, m_ts_anns (run ops) r t = s_ts_anns (run ops) r t).
 Check (C01_annotation_annotations : forall ops a, m_ann_anns (run ops) a = s_ann_anns (run ops) a).
@@ -24,3 +24,4 @@ Print Assumptions C01_data_annotations.
 Print Assumptions C01_chronological_no_duplicates.
 Print Assumptions C01_scan_exact.
 Print Assumptions C01_targets_older.
+Print Assumptions C01_targets_never_change.
